@@ -254,6 +254,17 @@ def run(pid, tier, replay=None):
         v.cov["states"] += r["distinct"]
         v.cov["transitions"] += r["states"]
         v.notes["no_infinite_behaviour_states"] = r["distinct"]
+        # the same statement as a temporal property checked by TLC: FairSpec (weak fairness of the scheduler's step) => <>(end # "run");
+        # a stuck non-terminal state or a cycle of steps is a counter-example
+        r = vlib.tlc("MC_Sched", "MC_Sched_live", workers=min(vlib.NCPU, 8), timeout=1500, heap="16g")
+        if "Temporal property" in r["out"] and "violated" in r["out"]:
+            v.violation("Sched.tla: FairSpec => <>(end # \"run\") is violated: some program within 3 fibers x 2 channels x 3 operations neither ends "
+                        "nor is reported as deadlocked", {"tlc": r["out"][-3000:]})
+        elif r["timeout"] or "No error has been found" not in r["out"]:
+            raise vlib.ToolError("TLC liveness run failed:\n" + r["out"][-1500:])
+        v.cov["states"] += r["distinct"]
+        v.cov["transitions"] += r["states"]
+        v.notes["liveness_states"] = r["distinct"]
 
     cases, preds, mode = [], {}, {}
     if replay:
